@@ -225,6 +225,7 @@ func runC10(c *Ctx) {
 				okLen = sharesRoots(cl.Call.Args[0], resAcc)
 			}
 			c.Check(okLen, fk(f, "slots=limit-len(result)"), in, "available slots = limit - len(result accumulator); found limit - "+describe(b.Y))
+			c.Check(inLoop(in), fk(f, "slots-recomputed-per-timestamp"), in, "the available slots are recomputed inside the scan loop (a value computed once before the loop never shrinks)")
 		}
 		c.Check(nSub == 1, fk(f, "slot-computation"), f, "one slot computation")
 		future := ABool("ts.After(ctx.BlockTime())", PCall("time.Time.After", -1, PCall("pt.ParseTime", 0, nil), PCall("sdk.Context.BlockTime", -1, nil)))
